@@ -273,6 +273,30 @@ def case_grad(D, Dy, sub):
             "mutual information wrt M": (lambda Mm: gt_cond.ConditionalGaussianPDF(M=Mm, b=jnp.asarray(b), Sigma=mk_cov(jnp.asarray(Bs))).mutual_information(
                 gt_pdf.GaussianPDF(Sigma=mk_prec(jnp.asarray(B)), mu=jnp.asarray(nu)))[0], M),
         }
+        # approximate conditionals: gradients of the variational bound terms and of moment-matched quantities
+        try:
+            from gaussian_toolbox import approximate_conditional as gt_ac
+            Dk = Dy
+            Ah = jnp.asarray(rng.standard_normal((1, Dy, Dy)) + 2.0 * np.eye(Dy)[None])
+            Wh = 0.3 * rng.standard_normal((Dk, D + 1))
+            Sx = mk_prec(jnp.asarray(B)); mx = jnp.asarray(nu)
+            for lname, cls in (("exp", gt_ac.HeteroscedasticExpConditional), ("coshm1", gt_ac.HeteroscedasticCoshM1Conditional)):
+                funs[f"hetero-{lname}: log-det bound wrt W"] = (
+                    lambda Wm, cls=cls: jnp.sum(cls(M=jnp.asarray(M), b=jnp.asarray(b), A=Ah, W=Wm).get_lb_log_det(gt_pdf.GaussianPDF(Sigma=Sx, mu=mx))), Wh)
+                funs[f"hetero-{lname}: log-det bound wrt mean of p(x)"] = (
+                    lambda mm, cls=cls: jnp.sum(cls(M=jnp.asarray(M), b=jnp.asarray(b), A=Ah, W=jnp.asarray(Wh)).get_lb_log_det(gt_pdf.GaussianPDF(Sigma=Sx, mu=mm))), nu)
+                funs[f"hetero-{lname}: matched marginal covariance wrt W"] = (
+                    lambda Wm, cls=cls: jnp.sum(cls(M=jnp.asarray(M), b=jnp.asarray(b), A=Ah, W=Wm).affine_marginal_transformation(gt_pdf.GaussianPDF(Sigma=Sx, mu=mx)).Sigma), Wh)
+            Dkf = 2
+            Mf = rng.standard_normal((1, Dy, D + Dkf))
+            funs["rbf: matched marginal mean wrt centres"] = (
+                lambda cm: jnp.sum(gt_ac.LRBFGaussianConditional(M=jnp.asarray(Mf), b=jnp.asarray(b), mu=cm, length_scale=jnp.ones((Dkf, D)), Sigma=mk_cov(jnp.asarray(Bs))
+                                                               ).affine_marginal_transformation(gt_pdf.GaussianPDF(Sigma=Sx, mu=mx)).mu), rng.standard_normal((Dkf, D)))
+            funs["lsem: expected log-conditional wrt W"] = (
+                lambda Wm: gt_ac.LSEMGaussianConditional(M=jnp.asarray(Mf), b=jnp.asarray(b), W=Wm, Sigma=mk_cov(jnp.asarray(Bs))
+                                                         ).integrate_log_conditional_y(gt_pdf.GaussianPDF(Sigma=Sx, mu=mx), y=y)[0], 0.5 * rng.standard_normal((Dkf, D + 1)))
+        except ImportError:
+            pass
         for name, (fun, theta) in funs.items():
             try:
                 g = np.asarray(jax.grad(fun)(jnp.asarray(theta)))
